@@ -75,17 +75,18 @@ fn segments_of(bytes: &[u8], cuts: &[usize]) -> Vec<Vec<u8>> {
 }
 
 fn classify_cuts(s: &Stream, cuts: &[usize]) -> (String, &'static str) {
-    // (1) a cut inside any head dominates
-    for &c in cuts {
-        let (ri, loc) = location(s, c);
-        if matches!(loc, "request-line" | "header" | "head-crlf") { return (format!("{}{loc}", if ri > 0 { "second-" } else { "" }), s.body_kinds[ri]) }
-    }
-    // (2) some segment contains the end of a head and at least one byte of the following request
+    // (1) some segment contains the end of a head and at least one byte of the following request: those bytes sit in the
+    //     buffer when the first request is done (coalescing)
     let mut bounds = vec![0]; bounds.extend_from_slice(cuts); bounds.push(s.bytes.len());
     for ri in 0..s.layout.len().saturating_sub(1) {
         let (start, head, total, _) = s.layout[ri];
         let head_end = start + head; let next = start + total;
-        for w in bounds.windows(2) { if w[0] < head_end && w[1] > next { return ("coalesced".into(), s.body_kinds[ri]) } }
+        for w in bounds.windows(2) { if w[0] < head_end && w[1] >= head_end && w[1] > next { return ("coalesced".into(), s.body_kinds[ri]) } }
+    }
+    // (2) otherwise a cut inside a head
+    for &c in cuts {
+        let (ri, loc) = location(s, c);
+        if matches!(loc, "request-line" | "header" | "head-crlf") { return (format!("{}{loc}", if ri > 0 { "second-" } else { "" }), s.body_kinds[ri]) }
     }
     // (3) the first cut
     match cuts.first() {
